@@ -26,6 +26,9 @@ type recEvent struct {
 	H    int          `json:"h,omitempty"`
 	Snap *snapContent `json:"snap,omitempty"`
 	Ok   *bool        `json:"ok,omitempty"`
+	What string       `json:"what,omitempty"` // rebind: "f" | "c", with Name and Kind
+	Name string       `json:"name,omitempty"`
+	Kind string       `json:"kind,omitempty"`
 	T0   int          `json:"t0"` // monotonic microseconds since the start of the case (0 where timing is not observed)
 	T1   int          `json:"t1"`
 	// harness-only (ignored by the trace specification)
@@ -35,12 +38,18 @@ type recEvent struct {
 }
 
 // recorder buffers the events of one path (paths are recorded in parallel and merged in order).
+// registrations the host may make between two calls (MC_Runner!Rebinds)
+var rebindChoices = [][3]string{{"f", "late", "id"}, {"f", "p1", "boom"}, {"c", "clate", "done"}, {"c", "cother", "fail"}, {"c", "cdone", "pend"},
+	{"f", "p1", "id"}, {"c", "cother", "done"}, {"f", "late", "boom"}}
+
 type recorder struct {
 	rnd      *rand.Rand
 	maxCalls int
+	rebinds  bool
 	hostSets bool
 	layouts  bool
 	events   []recEvent
+	by       *bystander // another runner alive in the process, stepped in between (see core_run.go)
 }
 
 func (rc *recorder) emit(e recEvent) error {
@@ -72,10 +81,17 @@ func (rc *recorder) drive(ci int, c *Case, path int) error {
 	if err := rc.emit(recEvent{Ev: "reset", Case: ci, ID: c.ID, Path: path, Layout: l.describe(), Texts: texts}); err != nil {
 		return err
 	}
+	byMode := rnd.Intn(4)
+	if byMode == 1 {
+		rc.by = newBystander(c, rnd) // (the same program: every name is registered by both runners)
+	}
 	h, err := newHost(c, texts)
 	if err != nil {
 		f := false
 		return rc.emit(recEvent{Ev: "loadfail", ID: c.ID, Ok: &f, Var: err.Error()})
+	}
+	if byMode == 2 {
+		rc.by = newBystander(c, rnd)
 	}
 	return rc.walk(h, c, 1)
 }
@@ -87,11 +103,19 @@ func (rc *recorder) walk(h *host, c *Case, r int) error {
 	waiting, pendingPolls, ends := false, 0, 0
 	nopts := 0
 	for call := 0; call < rc.maxCalls; call++ {
+		rc.by.poke()
 		if rc.hostSets && h.storer != nil && rnd.Intn(6) == 0 {
 			name := c.Vars[rnd.Intn(len(c.Vars))]
 			v := randomHostVal(rnd)
 			h.hostSet(name, v)
 			if err := rc.emit(recEvent{Ev: "hostset", ID: c.ID, R: r, Var: name, Val: &v}); err != nil {
+				return err
+			}
+		}
+		if rc.rebinds && rnd.Intn(6) == 0 {
+			b := rebindChoices[rnd.Intn(len(rebindChoices))]
+			h.rebind(b[0], b[1], b[2])
+			if err := rc.emit(recEvent{Ev: "rebind", ID: c.ID, R: r, What: b[0], Name: b[1], Kind: b[2]}); err != nil {
 				return err
 			}
 		}
@@ -281,7 +305,7 @@ func coreRecord(m map[string]string) error {
 	parallelFor(len(jobs), func(j int) {
 		jb := jobs[j]
 		rc := &recorder{rnd: rand.New(rand.NewSource(base + int64(j)*1000003)), maxCalls: argInt(m, "calls", 30),
-			hostSets: m["hostsets"] == "1", layouts: m["layouts"] == "random"}
+			hostSets: m["hostsets"] == "1", layouts: m["layouts"] == "random", rebinds: m["rebinds"] == "1"}
 		if m["mode"] == "snap" {
 			errs[j] = rc.driveSnap(jb.ci+1, cases[jb.ci], jb.path)
 		} else {
